@@ -911,6 +911,16 @@ func (env *specEnv) lookupPkg(name string) *types.Package {
 			return p.Types
 		}
 	}
+	// any loaded dependency with that name (e.g. saferith), smallest path first for determinism
+	best := ""
+	for path, p := range env.f.e.w.ByPath {
+		if p.Types != nil && p.Types.Name() == name && (best == "" || path < best) {
+			best = path
+		}
+	}
+	if best != "" {
+		return env.f.e.w.ByPath[best].Types
+	}
 	return nil
 }
 
